@@ -69,19 +69,9 @@ def reads_report_what_they_return(ctx):
     ctx.ob(f, 'seek(): report only while self._callbacks_enabled', ok, 'rewinds while signing would be subtracted')
     if len(cs) == 1:
         amt = kwarg(cs[0], 'bytes_transferred') or (cs[0].args[1] if len(cs[0].args) > 1 else None)
-        env = {}
-        for n in own_nodes(f.node):
-            if isinstance(n, ast.Assign) and len(n.targets) == 1 and isinstance(n.targets[0], ast.Name):
-                env[n.targets[0].id] = norm(n.value)
-        def inline(e, d=0):
-            t = norm(e)
-            for _ in range(4):
-                for k, v in env.items():
-                    import re
-                    t = re.sub(rf'\b{k}\b', f'({v})', t)
-            return t.replace(' ', '')
-        got = inline(amt) if amt is not None else ''
-        want = '((max(min(where-self._start_byte,self._size),0))-(min(self._amount_read,self._size)))'
+        from ..ir import canon_text
+        got = norm(q.inline_locals(f, amt)) if amt is not None else ''
+        want = canon_text('max(min(where - self._start_byte, self._size), 0) - min(self._amount_read, self._size)')
         ctx.ob(f, 'seek(): amount = clamp(where - start, 0, size) - min(amount_read, size)', got == want,
                f'the rewind/forward amount must be the bounded position delta; found {got}')
         g = ctx.cfg(f)
